@@ -307,9 +307,9 @@ PROPS['C04'] = dict(
          'non-vacuity example is computed), model, extraction, harness, Python reference receiver and validator. No axioms.')
 
 PROPS['C12'] = dict(
-    sess=[('py_c12', 300, 5000), ('sweep_c12', 400, 8000), ('sess_c12', 200, 4000), ('py_edges', 200, 3000), ('py_c12p', 150, 1500), ('py_c05r', 100, 1000)],
+    sess=[('py_c12', 300, 5000), ('sweep_c12', 400, 8000), ('sess_c12', 200, 4000), ('py_edges', 200, 3000), ('py_c12p', 150, 1500), ('py_c05r', 100, 1000), ('py_c12u', 200, 2000)],
     events='wrf', state=['cap', 'used', 'ret', 'ctl', 'rel', 'rb', 'pl', 'np', 'pt', 'resumed', 'sp', 'conn', 'live', 'cp', 'cid', 'quota', 'maxquota'],
-    monitors=[M.mon_c12, M.mon_panic],
+    monitors=[M.mon_c12, M.mon_c12_usable, M.mon_panic],
     title='the session can always be reconnected, whatever happened before',
     claim='Proved in Coq for every session value (so for every history): the preamble of connect() empties the packet reader, clears '
           'both timers and the resumed flag and puts every queued control, release and retained entry back at byte 0; the CONNECT is '
